@@ -373,7 +373,7 @@ fn find_item<'a>(src: &str, items: &'a [syn::Item], sel: &str) -> Result<Found<'
         for it in &flat {
             if let syn::Item::Impl(im) = it {
                 let ty = type_text(src, &im.self_ty);
-                let ty_ok = ty == want_ty || type_last_ident(&im.self_ty).map(|s| s == want_ty).unwrap_or(false);
+                let ty_ok = ty == want_ty || (!matches!(*im.self_ty, syn::Type::Reference(_)) && type_last_ident(&im.self_ty).map(|s| s == want_ty).unwrap_or(false));
                 let tr_ok = match (&want_trait, &im.trait_) {
                     (None, None) => true,
                     (Some(w), Some((_, p, _))) => {
